@@ -125,7 +125,11 @@ def St.process (s : St) (f : Frame) : St × Eff :=
     else (s, {})
   | .reply tag =>
     match s.tagMap.lookup tag with
-    | some id => ({ s with tagMap := s.tagMap.filter (fun p => p.1 ≠ tag) }, { dels := [(id, .stream)] })
+    | some id =>
+      -- `props[Tag.KEY] = None`: if the request's frame still waits in the send queue the send
+      -- loop will skip it (repair F6b of C11); a frame the loop is already writing is written
+      ({ s with tagMap := s.tagMap.filter (fun p => p.1 ≠ tag),
+                sendQ := s.sendQ.filter (fun it => it ≠ .req tag id) }, { dels := [(id, .stream)] })
     | none => (s, {})
 
 /-- the pending read of the receive loop returns -/
